@@ -323,13 +323,29 @@ def run_trio(ex, schedule_fn):
     import trio
     import trio.testing
 
+    class StepBudget(trio.abc.Instrument):
+        """Tasks that keep each other runnable for ever (a request bounced between the pool and a connection without ever waiting)
+        would keep `wait_all_tasks_blocked` from returning: after too many task steps without quiescence the run is cut short."""
+        steps = 0
+        scope = None
+
+        def before_task_step(self, task):
+            self.steps += 1
+            if self.steps > 400000 and self.scope is not None and not getattr(ex, "livelock", False):
+                ex.livelock = True
+                self.scope.cancel()
+
+    budget = StepBudget()
+
     async def main():
         async def settle():
+            budget.steps = 0
             await trio.testing.wait_all_tasks_blocked()
 
         ex.tick = lambda dt: clock.jump(dt)
         ex.now = lambda: clock.current_time()
         async with trio.open_nursery() as nursery:
+            budget.scope = nursery.cancel_scope
             ex.make_pool()
 
             def spawn(c):
@@ -346,7 +362,10 @@ def run_trio(ex, schedule_fn):
     clock = trio.testing.MockClock()
     import trio._core._run as trio_run
     trio_run._r.seed(getattr(ex, "trio_seed", 0))      # trio reverses run batches at random: make it replayable
-    trio.run(main, clock=clock)
+    trio.run(main, clock=clock, instruments=[budget])
+    if getattr(ex, "livelock", False):
+        ex.violations.append(("C07:live-lock", {"callers": [(c.idx, c.state) for c in ex.callers if c.state != "done"], "repr": repr(ex.pool),
+                                                "conns": [c.info() for c in ex.pool.connections]}))
 
 
 # -----------------------------------------------------------------------------------------------------
